@@ -442,9 +442,15 @@ def gate_check(pid, tier, seed, replay, variant, mode, gen, rule, props):
     exe = build.build_driver("gate", GATE_SRCS, variant=variant, wraps=gate_wraps())
     env = {"MODE": mode}
     if replay:
-        lines = [x for x in open(replay).read().splitlines() if x and not x.startswith("#")]
-        outs = run_jobs([{"name": "replay", "behaviours": [lines], "env": env}], exe, "TraceGate")
-        collect(chk, outs, props, marker="Mark")
+        text = open(replay).read()
+        lines = [x for x in text.splitlines() if x and not x.startswith("#")]
+        if "# driver: self" in text:        # a concurrent fail-closed behaviour (concurrent_gate)
+            sexe = build.build_driver("self", SELF_SRCS, variant="fips", wraps=SELF_WRAPS)
+            outs = run_jobs([{"name": "replay", "behaviours": [lines], "driver": "self"}], sexe, "TraceSelfTest")
+            collect(chk, outs, {"C17"}, marker="Mark")
+        else:
+            outs = run_jobs([{"name": "replay", "behaviours": [lines], "env": env}], exe, "TraceGate")
+            collect(chk, outs, props, marker="Mark")
         chk.cov.update({"states": 1, "transitions": 1, "traces_validated_against_impl": 1, "samples": [replay]})
         return chk.finish()
     model_check(chk, [("ApiGateModel", "ApiGateModel.cfg", 8, 600)])
@@ -463,11 +469,30 @@ def gate_check(pid, tier, seed, replay, variant, mode, gen, rule, props):
         nb2, ne2 = legacy_agreement(chk, seed, tier)
         nb += nb2
         ne += ne2
+    if pid == "C13":
+        nb2, ne2 = concurrent_gate(chk)
+        nb += nb2
+        ne += ne2
     _finish_traces(chk, jobs, outs, nb, ne, rule)
     chk.cov["entries"] = len(entries)
     chk.assumptions += ["argument signatures (one letter per parameter) are transcribed from the public headers into harness/drv_gate.c",
                         "cryptographic work = an internal dispatched function entered (ld --wrap seams) or an argument object changed"]
     return chk.finish()
+
+
+def concurrent_gate(chk):
+    """fail-closed under concurrency: while one thread is held inside the self-tests, first calls of approved entry points
+    (AES key expansion, SHA-1/256/512 manager init, GCM precompute, mixed) made by other threads must not succeed before the
+    tests have finished and passed, and must report the verdict afterwards (verdict layer of TraceSelfTest)."""
+    exe = build.build_driver("self", SELF_SRCS, variant="fips", wraps=SELF_WRAPS)
+    bs = [["selfstall 6 500 0 0 m"], ["selfstall 6 400 1 0 m"], ["selfstall 6 400 0 -1 m"], ["selfstall 3 400 0 -1 a"],
+          ["selfstall 3 400 1 0 b"], ["selfstall 3 400 0 0 c"], ["selfstall 3 400 1 0 g"], ["selfstall 3 400 0 -1 k"]]
+    jobs = [{"name": "gate-conc-%d" % i, "behaviours": bs[i::4], "driver": "self"} for i in range(4)]
+    outs = run_jobs(jobs, exe, "TraceSelfTest")
+    keep = {"success-before-self-tests-finished-and-passed", "threads-observe-different-verdicts", "unexpected-return-value"}
+    for o in outs:
+        o["result"]["viol"] = [v for v in o["result"]["viol"] if v["p"] != "C17" or v["what"] in keep]
+    return collect(chk, outs, {"C17"}, marker="Mark")
 
 
 def legacy_agreement(chk, seed, tier):
@@ -587,6 +612,15 @@ def check_c17(tier, seed, replay=None, selftest=False):
         ntlc += len(cmds)
         beh += cmds
     chk.cov["tlc_generated_behaviours_replayed"] = ntlc
+    # free-running long-stall behaviours: the runner is held inside the AES stage while the others really spin (millions of
+    # polls - out of reach of the stepped scheduler); judged by the verdict layer of TraceSelfTest only. Spread over the jobs
+    # so that the stalls overlap in wall-clock time.
+    stall = 2500 if tier == "quick" else 8000
+    stalls = ["selfstall 4 %d 0 0 t" % stall, "selfstall 3 300 1 0 k", "selfstall 3 300 0 -1 t", "selfstall 2 200 -9 -9 t",
+              "selfstall 3 %d 0 -1 k" % stall, "selfstall 8 400 0 0 k", "selfstall 6 600 0 0 m", "selfstall 6 600 1 0 m",
+              "selfstall 3 500 0 -1 a", "selfstall 3 500 0 0 g"]
+    chk.cov["free_running_stall_behaviours"] = stalls
+    beh = stalls + beh
     nj = 14
     jobs = [{"name": "self-%d" % i, "behaviours": [[mapcmd]] + [[b] for b in beh[i::nj]], "driver": "self", "prelude": mapcmd + "\n"}
             for i in range(nj)]
